@@ -259,7 +259,7 @@ func rulesMashAdd(c *Ctx, r *Report) {
 	})
 	push := methodCallOn(info, inner.Body, mh, "Push")
 	var protoBody ast.Node = inner.Body // where the Reset/Write/Sum64 protocol is carried out
-	callerH := hObj                    // the hasher variable in Add
+	callerH := hObj                     // the hasher variable in Add
 	if hObj == nil && push != nil && len(push.Args) == 1 {
 		// a helper of the package that hashes one k-mer: Push(helper(h, b))
 		if call, ok := ast.Unparen(push.Args[0]).(*ast.CallExpr); ok && len(call.Args) == 2 {
